@@ -88,6 +88,12 @@ CLAIMED = {
    note="Trusted: Lean kernel; the text->token->AST step of participle and the YAML library are not modelled (exercised by the correspondence only); generated C++ of reordered packages is compared through schemas/plans, not compiled; the topological sort itself is exercised, not proved.",
    technique="Lean 4 proof (mutual structural induction over the surface type) + in-process correspondence with UnmarshalTypeYAML + artefact differential",
    design="§7 C13"),
+ "C06": dict(
+   engine="evolution",
+   text="Lean model of the structural core of schema-evolution change detection (compareTypes and the detect*Changes family on resolved types with nominal records/enums, the greedy union matching, record/enum definition comparison, and the error/warning/silent classification of validateTypeDefinitionChanges / validateProtocolChanges). Kernel-checked: the verdict function is total; its primitive-change classification equals, on all 324 ordered pairs, a table regenerated every run by executing ValidateEvolution of the current source; documented primitive classes (numbers and strings interconvert with a warning, complex with complex, everything else rejected, identical silent); rejection is symmetric; stream/vector/optional wrappers preserve errors and unchangedness; reflexivity of comparison for all types built from primitives and containers (partial: records/enums/unions are evaluated, not proved). Tied to the code by judging random version pairs (1-3 random edits at any position: type rewrites, record/enum edits, protocol edits) with the real ValidateEvolution in-process (and yardl validate on a sample) and with the model: verdicts must agree, no panic, same answer twice; every edit of a documented class at a position the documentation speaks about must get the documented verdict; the documentation's own examples, meaning-preserving rewrites of packages with generics/aliases (order, unused definitions, comments, rename through alias, re-spelling) must be silent, and type-argument changes (also behind an alias in one version) rejected.",
+   note="PARTIAL proof (see text). Not modelled: pairing of definitions through aliases and generic instantiations (resolveAllChanges/SemanticPairs) - exercised by the rewrite/edit-class differential only. Known finding: dimensioned types cannot be made optional / union members. One defect fixed (respelled previous version rejected).",
+   technique="Lean 4 model + kernel-checked table/structural theorems (partial) + differential correspondence with ValidateEvolution + documented-class oracle",
+   design="§7 C06"),
 }
 NOT_YET = "machinery for this property is not built yet in this round (see DESIGN.md §10 build order)"
 checks, na = [], []
